@@ -136,10 +136,16 @@ class CHECK(Check):
                         if kd == "date":
                             fd["formats"] = ["%m%d"] if body == "0131" else ["%Y"]
                         yield {"fd": fd, "lines": [[0x41] + seq + [0x42]], "bytes": True}
+            # a span that BEGINS with a UTF-8 byte-order mark: U+FEFF is a character of the text like any other
+            for body in ("\ufeffabc", "\ufeff", "\ufeff 12", "\ufeff\ufeffx"):
+                seq = list(body.encode())
+                yield {"fd": {"k": "lit", "size": len(seq), "start": 1}, "lines": [[0x41] + seq + [0x42]], "bytes": True}
+                yield {"fd": {"k": "lit", "size": len(seq) + 2, "start": 0}, "lines": [seq + [0x20, 0x20, 0x42]], "bytes": True}
             bad_utf8 = [[0xC0, 0x80], [0xC1, 0xBF], [0xE0, 0x80, 0x80], [0xE0, 0x9F, 0xBF], [0xED, 0xA0, 0x80], [0xF0, 0x80, 0x80, 0x80],
                         [0xF4, 0x90, 0x80, 0x80], [0xF5, 0x80, 0x80, 0x80], [0x80], [0xBF], [0xC2], [0xE2, 0x82], [0xF0, 0x9F, 0x98],
                         [0xC2, 0x41], [0xE2, 0x28, 0xA1], [0xFF], [0xFE]]
-            good_utf8 = [list("é".encode()), list("€".encode()), list("😀".encode()), list(" ٣ ".encode()), list(" x ".encode())]
+            good_utf8 = [list("é".encode()), list("€".encode()), list("😀".encode()), list(" ٣ ".encode()), list(" x ".encode()),
+                         list("\ufeffab".encode()), list("\ufeff".encode()), list("a\ufeffb".encode())]
             for seq in bad_utf8 + good_utf8:
                 for k in ("lit", "date"):
                     fd = {"k": k, "size": len(seq) + 2, "start": 1}
